@@ -616,4 +616,20 @@ func TestC02Regress(t *testing.T) {
 		c.threshold = 1
 		c02Check(t, c)
 	})
+	// an intset whose 32-bit member count does not fit 16 bits, on the element-by-element route, fresh and over an existing key
+	rapid.Check(t, func(rt *rapid.T) {
+		n := rapid.SampledFrom([]int{65536, 65537, 69001}).Draw(rt, "members")
+		big := &gen.Value{Kind: "set"}
+		var ints []int64
+		for i := 0; i < n; i++ {
+			ints = append(ints, int64(i)-1000)
+			big.Set = append(big.Set, []byte(strconv.Itoa(i-1000)))
+		}
+		c := mk(big, gen.TSetIntset, gen.AppendRawString(nil, gen.Intset(rt, ints, nil)), "set/intset", t5)
+		c.threshold = 1
+		if rapid.Bool().Draw(rt, "rewrite") {
+			c.keyExists, c.existing, c.exValue = "rewrite", "same", str("old")
+		}
+		c02Check(t, c)
+	})
 }
